@@ -46,6 +46,7 @@ def evalTerm2 (t1 t2 : Term (Range Nat)) : String :=
 
 def evalLine (line : String) : String :=
   let bad := "bad-request"
+  if line.startsWith "svparse|" then MiscDriver.svparse (line.drop 8).toString else
   match line.splitOn "|" with
   | ["rbin", a, b] =>
     match parseSegs a, parseSegs b with
@@ -90,6 +91,26 @@ def evalLine (line : String) : String :=
       "|U=" ++ toString (mask (VersionSet.union x y)) ++
       "|D=" ++ bit (VersionSet.isDisjoint x y) ++ "|S=" ++ bit (VersionSet.subsetOf x y)
     | _, _ => bad
+  | ["sv1", a, b, c] =>
+    match a.toNat?, b.toNat?, c.toNat? with
+    | some a, some b, some c => MiscDriver.sv1 a b c
+    | _, _, _ => bad
+  | ["svcmp", a, b] =>
+    match MiscDriver.parseDotted a, MiscDriver.parseDotted b with
+    | some a, some b => ordS (SemVer.cmp a b)
+    | _, _ => bad
+  | ["offline", ops, sets] => MiscDriver.offlineLine ops sets
+  | ["serde_range", a] =>
+    match parseSegs a with
+    | some a => MiscDriver.serdeRange a
+    | none => bad
+  | ["serde_legacy", json, _ron, pairs] => MiscDriver.serdeLegacy json pairs
+  | ["serde_semver", a, b, c] =>
+    match a.toNat?, b.toNat?, c.toNat? with
+    | some a, some b, some c => MiscDriver.serdeSemver a b c
+    | _, _, _ => bad
+  | ["serde_provider", ops, _root, _rv] => MiscDriver.serdeProvider ops
+  | "det" :: _ => "not-modelled"
   | ["report", toks, _reg] => ReportDriver.reportLine toks
   | ["collapse", toks, _reg, _root, _rv] => ReportDriver.collapseLine toks
   | ["solve", vs, dbg, root, rv, _reg, _strat, _fault, answers] =>
